@@ -574,7 +574,13 @@ class ImageBatch(DataTensor):
         ceil_mode: bool = False,
         count_include_pad: bool = True,
     ) -> TImageBatch:
-        r"""Average pooling of image data."""
+        r"""Average pooling of image data.
+
+        Args:
+            kernel_size: Size of the pooling region. A sequence is given in the order of
+                the dimensions of the image data tensor, i.e., ``(..., kx)``.
+
+        """
         data = U.avg_pool(
             self,
             kernel_size,
@@ -585,7 +591,7 @@ class ImageBatch(DataTensor):
         )
         grid = tuple(
             grid.avg_pool(
-                kernel_size,
+                kernel_size if isinstance(kernel_size, int) else tuple(reversed(kernel_size)),
                 stride=stride,
                 padding=padding,
                 ceil_mode=ceil_mode,
